@@ -40,13 +40,15 @@ class World:
         self.L1, self.L2, self.L3, self.L0 = mk(2, 3, "L1"), mk(1, 2, "L2"), mk(2, 2, "L3"), mk(1, 1, "L0")
         self.L1b = M.LinkWithVsl(2, 3, 1.0, 180.0, 34.0, 105.0, 1.9, name="L1b", segments_with_vsl={1}, alpha=0.1)
         self.O1 = M.MeteredOnRamp(3000.0, name="O1")
-        self.O1b = M.MainstreamOrigin(name="O1b")
-        self.O2 = M.SimplifiedMeteredOnRamp(2000.0, name="O2")
+        self.O1b = M.MainstreamOrigin(name=("L0" if rng.random() < 0.3 else "O1b"))
+        # names may clash with other elements' names (uniqueness is by object, not by name)
+        clash = rng.random() < 0.5
+        self.O2 = M.SimplifiedMeteredOnRamp(2000.0, name=("L2" if clash else "O2"))
         # kinds vary between worlds (elements with only disturbances / only states / no variables)
         self.D1 = (M.CongestedDestination if rng.random() < 0.6 else M.Destination)(name="D1")
         self.D1b = (M.CongestedDestination if rng.random() < 0.7 else M.Destination)(name="D1b")
         self.D2 = M.Destination(name="D2")
-        self.D2b = M.CongestedDestination(name="D2b")
+        self.D2b = M.CongestedDestination(name=("O1" if rng.random() < 0.3 else "D2b"))
         self.net = M.Network().add_path((self.N[0], self.L1, self.N[1], self.L2, self.N[2], self.L0, self.N[5]),
                                         origin=self.O1, destination=self.D1)
         # model
@@ -222,6 +224,10 @@ def observe_compile(W_, rec, ctxhist):
             for v, n in L[grp]:
                 x = vals_now[eid][v]
                 args[f"{v}_{names[eid]}"] = cs.DM(x if isinstance(x, list) else [x])
+    all_names = [f"{v}_{names[eid]}" for eid, L in lay.items() for grp in ("states", "actions", "disturbances") for v, n in L[grp]]
+    if len(set(all_names)) != len(all_names):
+        rec.count("value_checks_skipped_clashing_argument_names")  # by-name evaluation would be ambiguous
+        return
     if set(F.name_in()) != set(args):
         rec.violation(f"{PROP}:function arguments are not the network's current variables", dict(ctx, names=list(F.name_in()), expected=sorted(args)))
         return
@@ -317,6 +323,8 @@ def run(M, rec, tier, seed, k, n):
         [("netstep", None), ("compile", None), ("netstep_alt", None), ("compile", None)],
         [("netstep", None), ("compile", None), ("netstep", None), ("compile", None), ("init", 3), ("compile", None)],
         [("netstep_alt", None), ("compile", None), ("replace_origin", None), ("netstep", None), ("compile", None)],
+        # an element added after the last step and initialised on its own, but never stepped (its name may clash)
+        [("netstep", None), ("add_ramp", None), ("init", 4), ("compile", None)],
         # a state-less element that declares a disturbance, attached after the last step
         [("add_branch", None), ("netstep", None), ("replace_branch_dest", None), ("compile", None)],
         [("netstep", None), ("replace_dest", None), ("compile", None)],
